@@ -111,25 +111,95 @@ func runOne(ctx context.Context, sp SolverSpec, file string, timeoutS, seed int)
 	return solveResult{st, sp.Name, ms, s}
 }
 
-// race runs the portfolio; the first definitive answer wins.
+// liteText weakens a query: quantified assumptions and the bodies of recursive functions are dropped.
+// Removing assumptions is sound for refutation: unsat of the lite query implies unsat of the full one.
+func liteText(txt string) string {
+	var b strings.Builder
+	lines := strings.Split(txt, "\n")
+	for i, ln := range lines {
+		last := i >= len(lines)-5
+		if strings.HasPrefix(ln, "(assert") && strings.Contains(ln, "(forall ") && !last && !strings.HasPrefix(ln, "(assert (not ") {
+			continue
+		}
+		if strings.HasPrefix(ln, "(define-fun-rec ") {
+			// (define-fun-rec name ((a S) (b T)) R body) -> (declare-fun name (S T) R)
+			if d, ok := recToDecl(ln); ok {
+				b.WriteString(d)
+				b.WriteByte('\n')
+				continue
+			}
+		}
+		b.WriteString(ln)
+		b.WriteByte('\n')
+	}
+	return b.String()
+}
+
+func recToDecl(ln string) (string, bool) {
+	sx, _, err := parseSexp(ln)
+	if err != nil || len(sx.list) < 5 {
+		return "", false
+	}
+	var sorts []string
+	for _, p := range sx.list[2].list {
+		if len(p.list) != 2 {
+			return "", false
+		}
+		sorts = append(sorts, sexpString(p.list[1]))
+	}
+	return fmt.Sprintf("(declare-fun %s (%s) %s)", sx.list[1].atom, strings.Join(sorts, " "), sexpString(sx.list[3])), true
+}
+
+func sexpString(s *sexp) string {
+	if s.list == nil {
+		return s.atom
+	}
+	var ps []string
+	for _, c := range s.list {
+		ps = append(ps, sexpString(c))
+	}
+	return "(" + strings.Join(ps, " ") + ")"
+}
+
+// race runs the portfolio; the first definitive answer wins. A ".lite" companion file (weakened query) is raced
+// too when present; only its unsat answers count.
 func race(file string, timeoutS, seed int, which []SolverSpec) (solveResult, []solveResult) {
 	ctx, cancel := context.WithCancel(context.Background())
 	defer cancel()
-	ch := make(chan solveResult, len(which))
+	lite := strings.TrimSuffix(file, ".smt2") + ".lite.smt2"
+	_, liteErr := os.Stat(lite)
+	n := len(which)
+	ch := make(chan solveResult, len(which)+2)
 	for _, sp := range which {
 		go func(sp SolverSpec) { ch <- runOne(ctx, sp, file, timeoutS, seed) }(sp)
+	}
+	if liteErr == nil {
+		for _, sp := range which {
+			if sp.Name == "z3" {
+				continue
+			}
+			n++
+			go func(sp SolverSpec) {
+				r := runOne(ctx, sp, lite, timeoutS, seed)
+				r.solver += "(lite)"
+				if r.status != "unsat" {
+					r.status = "unknown"
+				}
+				ch <- r
+			}(sp)
+		}
 	}
 	var all []solveResult
 	var best solveResult
 	best.status = "unknown"
-	for range which {
+	for i := 0; i < n; i++ {
 		r := <-ch
 		all = append(all, r)
 		if r.status == "unsat" || r.status == "sat" {
 			cancel()
 			return r, all
 		}
-		if best.out == "" || r.status == "unknown" {
+		if (best.out == "" || r.status == "unknown") && !strings.HasSuffix(r.solver, "(lite)") {
 			best = r
 		}
 	}
@@ -174,6 +244,11 @@ func discharge(reps []*FuncReport, cfg solveCfg) {
 					j.o.Status = "error"
 					continue
 				}
+				if j.o.Expect != "sat" {
+					if lt := liteText(txt); lt != txt+"\n" && len(lt) < len(txt) {
+						os.WriteFile(strings.TrimSuffix(f, ".smt2")+".lite.smt2", []byte(lt), 0o644)
+					}
+				}
 				if cfg.each {
 					var sts []string
 					var win solveResult
@@ -193,8 +268,8 @@ func discharge(reps []*FuncReport, cfg solveCfg) {
 					j.o.Status, j.o.Solver, j.o.TimeMs, j.o.Model = win.status, strings.Join(sts, ","), win.ms, win.out
 				} else {
 					to := cfg.timeoutS
-					if j.o.Expect == "sat" && to > 4 {
-						to = 4 // cover queries are auxiliary: inconclusive after 4 s is not a failure
+					if j.o.Expect == "sat" && to > 2 {
+						to = 2 // cover queries are auxiliary: inconclusive after 2 s is not a failure
 					}
 					r, _ := race(f, to, cfg.seed, solvers)
 					j.o.Status, j.o.Solver, j.o.TimeMs, j.o.Model = r.status, r.solver, r.ms, r.out
